@@ -103,7 +103,20 @@ def inlined(facts, body, depth=MAX_DEPTH, skip=None, tag=None, sugar=False):
     if sugar:
         from .desugar import Sugar
         sg = Sugar(facts, locals_, blocks, origin, work, outer=body)
-    while work:
+    retries = 0
+    while work or (sg is not None and retries < 2):
+        if not work:
+            # a pipeline whose adaptors are created in a helper can only be read once that helper has
+            # been inlined, which (last-in first-out) may have happened after its consumer was visited:
+            # offer the remaining iterator calls once more
+            retries += 1
+            for i, blk in enumerate(blocks):
+                tt = blk.get("term")
+                if tt and tt["k"] == "call" and not blk["cleanup"] and (tt.get("def") or "").startswith("std::iter::Iterator::") and not tt.get("synthetic"):
+                    work.append((i, 1, (body.id,)))
+            if not work:
+                break
+            continue
         bi, dep, stack = work.pop()
         if len(blocks) > MAX_BLOCKS:
             break
